@@ -268,7 +268,7 @@ func crashOracle(w *World, i int, op Op, obs string) *Mismatch {
 func checkC03(rep *Report, rng *Rng, tier string) {
 	n := 22
 	if tier == "thorough" {
-		n = 600
+		n = 200 // every byte of every write of every Flush is a cut: ~15 s per history
 		c03AllCuts = true
 	}
 	c03Rng = rng.Fork()
